@@ -303,7 +303,7 @@ var c06ExSpecs = []struct {
 		return http.Header{"Content-Type": {"application/octet-stream"}, "Content-Encoding": {"gzip"}}
 	}},
 	{"https://b.test/", func() http.Header {
-		return http.Header{"Content-Type": {"text/plain"}, "X-Long": {strings.Repeat("0123456789", 30)}}
+		return http.Header{"Content-Type": {"text/plain"}, "X-Long": {strings.Repeat("0123456789", 30)}, "X-Pad": {" leading and trailing "}}
 	}},
 	{"https://sub.b.test/y", func() http.Header { return http.Header{"x-lower": {"v"}, "Content-Type": {"image/png"}} }},
 	{"https://c.test/", func() http.Header { return http.Header{} }},
